@@ -32,6 +32,38 @@ pub fn verify(r: &mut QueryServerReadTransaction<'_>) -> Vec<String> {
         .collect()
 }
 
+/// Every index / lookup table that exists in the database with its size: (table name, number of
+/// keys, total number of entry ids over all keys). Straight from SQLite (no cache).
+pub fn index_tables(r: &mut QueryServerReadTransaction<'_>) -> Result<Vec<(String, usize, usize)>, OperationError> {
+    let be = r.get_be_txn();
+    let mut names = be.list_indexes()?;
+    names.sort();
+    let mut out = Vec::with_capacity(names.len());
+    for n in names {
+        // the lookup tables (name2uuid, uuid2spn, ...) have another shape: presence only (0, 0)
+        match be.list_index_content(&n) {
+            Ok(content) => {
+                let ids: usize = content.iter().map(|(_, idl)| idl.len()).sum();
+                out.push((n, content.len(), ids));
+            }
+            Err(_) => out.push((n, 0, 0)),
+        }
+    }
+    Ok(out)
+}
+
+/// The BACKEND's own consistency check (allids / entry ids, `verify_indexes`: every index the
+/// metadata expects exists and agrees with the entries, RUV) through an existing read
+/// transaction; works on a bare reopened server because it involves no plugin and no schema.
+pub fn be_verify(r: &mut QueryServerReadTransaction<'_>) -> Vec<String> {
+    r.get_be_txn()
+        .verify()
+        .into_iter()
+        .filter_map(|x| x.err())
+        .map(|e| format!("{e:?}"))
+        .collect()
+}
+
 // --------------------------------------------------------------------- H2: storage fault injector
 //
 // Call sites: `#[cfg(feature = "verif-hooks")] crate::verif::txn::storage_point("name")?;` before each
